@@ -104,3 +104,56 @@ func declaredJ2K(d []byte) (uint64, bool) {
 	return best, found
 }
 
+
+// J2KPrecincts estimates how many precincts the first SIZ + first COD of a JPEG 2000
+// codestream declare (all tiles, components and resolutions; default precinct size 2^15).
+// It returns 0 when either marker segment is missing or unreadable. The library's decoder
+// spends several microseconds and a small map per declared precinct, which is the subject of
+// known finding KF-C09-1; the estimate names that class of inputs.
+func J2KPrecincts(d []byte) uint64 {
+	siz := -1
+	for i := 0; i+40 < len(d); i++ {
+		if d[i] == 0xFF && d[i+1] == 0x51 {
+			siz = i
+			break
+		}
+	}
+	if siz < 0 {
+		return 0
+	}
+	p := d[siz+4:]
+	xs, ys := uint64(binary.BigEndian.Uint32(p[2:])), uint64(binary.BigEndian.Uint32(p[6:]))
+	xt, yt := uint64(binary.BigEndian.Uint32(p[18:])), uint64(binary.BigEndian.Uint32(p[22:]))
+	nc := uint64(binary.BigEndian.Uint16(p[34:]))
+	if xt == 0 || yt == 0 || xs == 0 || ys == 0 {
+		return 0
+	}
+	tw, th := min(xt, xs), min(yt, ys)
+	tiles := sat((xs+xt-1)/xt, (ys+yt-1)/yt)
+	for i := siz; i+12 < len(d); i++ {
+		if d[i] != 0xFF || d[i+1] != 0x52 {
+			continue
+		}
+		l := int(binary.BigEndian.Uint16(d[i+2:]))
+		if l < 12 || i+2+l > len(d) {
+			return 0
+		}
+		scod, levels := d[i+4], int(d[i+9])
+		if levels > 32 {
+			return 0
+		}
+		total := uint64(0)
+		for r := 0; r <= levels; r++ {
+			ppx, ppy := uint(15), uint(15)
+			if scod&1 != 0 && 14+r < 2+l {
+				b := d[i+14+r]
+				ppx, ppy = uint(b&15), uint(b>>4)
+			}
+			sh := uint(levels - r)
+			rw, rh := (tw+(1<<sh)-1)>>sh, (th+(1<<sh)-1)>>sh
+			total = total + sat(((rw+(1<<ppx)-1)>>ppx), ((rh+(1<<ppy)-1)>>ppy))
+		}
+		return sat(sat(total, tiles), nc)
+	}
+	return 0
+}
